@@ -137,6 +137,7 @@ type Conn struct {
 	ID         int
 	Peer       Peer
 	Chunked    bool // deliver every Write in two chunks with a scheduling point in between
+	ReadMax    int  // >0: a Read returns at most this many bytes (short reads: one TCP segment per byte)
 	FailWrites bool // every Write fails with an error and reaches nobody, while the read side stays open and silent (half-dead link)
 	Stalled    bool // the peer stopped reading and the send buffer is full: Write blocks until the transport is closed locally
 	in         []byte
@@ -178,6 +179,9 @@ func (c *Conn) Read(p []byte) (int, error) {
 		return 0, c.closedErr()
 	}
 	if len(c.in) > 0 {
+		if c.ReadMax > 0 && len(p) > c.ReadMax {
+			p = p[:c.ReadMax]
+		}
 		n := copy(p, c.in)
 		c.in = c.in[n:]
 		vrt.Event(unsafe.Pointer(c), uint64(n))
